@@ -2,7 +2,7 @@
     input and every environment (world), the run never faults, the message buffer is NUL-terminated within
     the size the configuration gives it, both limits anywhere in [HARDMIN, HARDMAX]. *)
 From Snoopy Require Import Lib.CStr Safety.Mem Safety.CLib Safety.Consts Safety.Lits Safety.Str Safety.Filter Safety.Conf Safety.Ds Safety.Out Safety.Top
-     Safety.P_Str Safety.P_Filter Safety.P_Conf Safety.P_Ini Safety.P_Ds Safety.P_Out Expand.Model Datasource.Cmdline.
+     Safety.P_Str Safety.P_Filter Safety.P_Conf Safety.P_Ini Safety.P_Ds Safety.P_Out Safety.Cgroup Safety.P_Cgroup Safety.Rpname Safety.P_Rpname Expand.Model Datasource.Cmdline.
 From Coq Require Import ZifyBool ZifyN ZifyNat.
 Local Open Scope N_scope.
 
@@ -28,7 +28,11 @@ Section P_Top.
   Definition world_wf (w : world) : Prop :=
     opt_nonul (w_file w) /\ (forall l, w_argv w = Some l -> Forall nonul l) /\ (forall l, w_environ w = Some l -> Forall nonul l) /\
     nonul (w_host w) /\ nonul (w_errno w) /\ opt_nonul (w_getlogin w) /\ opt_nonul (w_sudo_user w) /\ opt_nonul (w_logname w) /\
-    (forall f, nonul (w_strftime w f)) /\ (forall n a t, snd (w_other_ds w n a) = Some t -> nonul t) /\ proc_terminates w.
+    (forall f, nonul (w_strftime w f)) /\ (forall n a t, snd (w_other_ds w n a) = Some t -> nonul t) /\ proc_terminates w /\
+    nonul (w_pid_text w) /\ nonul (w_open_err w) /\
+    (* /proc/<pid>/status as the kernel writes it ("Key:<tab>value<newline>"), parent chain finite *)
+    status_wf (w_status w) /\
+    chain {| path_cap := s_rp_path c; val_max := s_rp_val_max c; ret_cap := s_rp_ret_cap c |} (w_status w) (w_rp_fuel w) (Z.of_N (w_pid w)).
 
   (** ** facts from the constants *)
   Ltac okf := pose proof Hok as Hk; unfold safety_consts_ok in Hk; repeat (apply andb_true_iff in Hk as [Hk ?]).
@@ -37,7 +41,7 @@ Section P_Top.
     s_hardmin_log c <= s_default_log c /\ s_default_log c <= s_hardmax_log c /\ s_hardmin_ds c <= s_default_ds c /\ s_default_ds c <= s_hardmax_ds c /\
     s_hardmax_log c < s_int_max c /\ s_hardmax_ds c < s_int_max c /\ s_hardmin_log c <= s_hardmax_log c /\ s_hardmin_ds c <= s_hardmax_ds c /\
     s_env_trunc_sub c + 1 <= s_hardmin_ds c /\ s_env_trunc_sub c + 1 <= s_ident_buf c /\ s_env_trunc_sub c + 1 <= s_path_max c /\
-    1 <= s_ident_buf c /\ 1 <= s_path_max c.
+    1 <= s_ident_buf c /\ 1 <= s_path_max c /\ 1 <= s_cg_path c /\ 1 <= s_rp_path c /\ s_rp_val_max c < s_rp_ret_cap c.
   Proof.
     okf.
     repeat match goal with
@@ -107,7 +111,8 @@ Section P_Top.
   Lemma top_ds_contract size : s_env_trunc_sub c + 1 <= size -> 1 <= size -> ds_contract (top_ds c cc w) size.
   Proof.
     intros Hsz H1 name arg a Hn Ha Hc H0.
-    destruct Hw as (Wf & Wa & We & Wh & Wer & Wg & Wsu & Wl & Wst & Wo & _).
+    destruct Hw as (Wf & Wa & We & Wh & Wer & Wg & Wsu & Wl & Wst & Wo & _ & Wpt & Woe & Wsw & Wch).
+    destruct ok_top as (_ & _ & _ & _ & _ & _ & _ & _ & _ & _ & _ & _ & _ & _ & _ & _ & _ & Hcg & Hrp & Hrv).
     assert (R : forall r, ds_result_ok a size r -> forall fl : bool, exists a' failed s, @bind (arr * N) (arr * bool) r (fun x => Ok (fst x, fl)) = Ok (a', failed) /\ cap a' = cap a /\ cstr a' 0 = Ok s /\ len s < size).
     { intros r (a' & n & s & -> & C & S & L) fl. cbn [bind fst]. exists a', fl, s. repeat split; assumption. }
     unfold top_ds.
@@ -118,6 +123,12 @@ Section P_Top.
     destruct (list_eqb name ds_hostname); [apply R; now apply (hostname_safe c Hok)|].
     destruct (list_eqb name ds_login); [apply R; now apply login_safe|].
     destruct (list_eqb name ds_datetime); [apply R; apply datetime_safe; try assumption; apply Wst|].
+    destruct (list_eqb name ds_cgroup).
+    { destruct (cgroup_safe c Hok (s_cg_path c) a size arg (w_pid_text w) (w_cgroup_file w) (w_open_err w) Hcg H1 Hc Ha Wpt Woe) as (a' & fl & E & C & s & S & L).
+      exists a', fl, s. repeat split; assumption. }
+    destruct (list_eqb name ds_rpname).
+    { apply R. destruct (rpname_fuel {| path_cap := s_rp_path c; val_max := s_rp_val_max c; ret_cap := s_rp_ret_cap c |} Hrp Hrv (w_status w) (w_rp_fuel w) (w_rp_fuel w) (w_pid w) a size Wch (le_n _) Wsw H1 Hc) as (a' & n & E & C & s & S & L).
+      exists a', n, s. repeat split; assumption. }
     destruct (w_other_ds w name arg) as [failed text] eqn:Eo.
     destruct text as [t|].
     - apply R. apply (ds_snprintf_safe c Hok); try assumption. apply (Wo name arg). now rewrite Eo.
@@ -136,7 +147,7 @@ Section P_Top.
   (** ** filters *)
   Lemma exclude_spawns_of_fuel arg : nonul arg -> exists r, exclude_spawns_of c (w_procstat w) (w_scan w) (w_proc_fuel w) (w_ppid w) arg = Ok r.
   Proof.
-    intros Ha. destruct Hw as (_ & _ & _ & _ & _ & _ & _ & _ & _ & _ & Hp).
+    intros Ha. destruct Hw as (_ & _ & _ & _ & _ & _ & _ & _ & _ & _ & Hp & _).
     unfold exclude_spawns_of, c_store.
     destruct (wrs_ok (fresh (len arg + 1)) 0 (arg ++ [NUL])) as [raw Er]; [rewrite cap_fresh, len_app; cbn; lia|].
     rewrite Er. cbn [bind].
@@ -159,7 +170,7 @@ Section P_Top.
   Lemma dispatch_safe cf msg : cfg_wf cf -> nonul msg -> exists o, dispatch c e cc w cf msg = Ok o.
   Proof.
     intros (W1 & W2 & W3 & W4 & W5 & W6 & _) Hm. unfold dispatch. destruct msg as [|b m]; [eauto|].
-    destruct ok_top as (_ & _ & _ & _ & _ & _ & _ & _ & _ & _ & _ & _ & _ & He2 & He3 & Hi & Hp).
+    destruct ok_top as (_ & _ & _ & _ & _ & _ & _ & _ & _ & _ & _ & _ & _ & He2 & He3 & Hi & Hp & _).
     assert (G : forall a bs th fmt, (bs = s_ident_buf c \/ bs = s_path_max c) -> th = bs ->
                (exists s0, cstr a 0 = Ok s0 /\ len s0 < bs) -> 1 <= bs -> bs <= cap a -> 1 <= th -> nonul fmt ->
                exists a' s, top_gen c e cc w a bs th fmt = Ok a' /\ cap a' = cap a /\ cstr a' 0 = Ok s /\ len s < bs).
